@@ -122,7 +122,14 @@ def run(ctx):
     ctx.assumptions = ['15-bit rational range of the TLC model', 'decimalfp true division guarded (DESIGN 5.2)']
     calcmodel.laws(ctx, 'add')
     calccheck.run_programs(ctx, programs(ctx), 'add/sub/cmp', sigfn=sig)
+    # predefined catalogue, amounts of any magnitude (BCalc.tla, big rationals) + the repository's own suite
+    from checks import bcalccheck
+    bcalccheck.run_cases(ctx, bcalccheck.additive_cases(ctx, ('Add', 'Sub')), 'catalogue-additive')
+    bcalccheck.repo_suite(ctx, {'Add', 'Sub', 'Neg', 'Abs'})
 
 
 def replay(ctx, rp):
+    if str(rp['replay'].get('kind')).startswith('bcalc'):
+        from checks import bcalccheck
+        return bcalccheck.replay(ctx, rp)
     calccheck.replay(ctx, rp, sig)
